@@ -41,7 +41,7 @@ class Check(PropCheck):
         for j in range(nr):
             n = rng.randint(2, 10) if rng.random() < 0.75 else rng.randint(10, 30 if self.tier == 'quick' else 80)
             mode = rng.choice(['exact', 'exact', 'none'])
-            t = gen.rand_tree(rng, n, mode, p_multi=rng.choice([0, 0.3]), p_unary=rng.choice([0, 0.15]), internal_names=rng.choice([0, 0.5, 1.0]))
+            t = gen.rand_tree(rng, n, mode, p_multi=rng.choice([0, 0.3]), p_unary=rng.choice([0, 0.15]), internal_names=rng.choice([0, 0.5, 1.0]), collide=(0.5 if rng.random() < 0.1 else 0.0))
             ops = [gen.parse_op(gen.to_newick(t))] if rng.random() < 0.7 else ['new'] + gen.build_ops(t)
             # cache-filling queries first
             ops += rng.sample(['partitions', 'dm', 'n_leaves', 'sackin', 'dmr', 'height'], 3)
